@@ -40,7 +40,7 @@ import builtins
 import copy
 from typing import Dict, List, Optional, Set, Tuple
 
-from .model import Func, Program, Resolver, own_nodes, set_parents, unparse
+from .model import Func, Program, Resolver, clone, own_nodes, set_parents, unparse
 
 SIMPLE = (ast.Name, ast.Constant)
 
@@ -72,7 +72,7 @@ class _Subst(ast.NodeTransformer):
 
     def visit_Name(self, node: ast.Name):
         if node.id in self.mapping and isinstance(node.ctx, ast.Load):
-            new = copy.deepcopy(self.mapping[node.id])
+            new = clone(self.mapping[node.id])
             return ast.copy_location(new, node)
         if node.id in self.rename:
             node.id = self.rename[node.id]
@@ -320,7 +320,7 @@ class Inliner:
                     new_if.orelse = self._returns_to(s.orelse, make)
                 else:
                     # returns somewhere inside but neither branch always returns: duplicate the rest into both
-                    new_if.body = self._returns_to(list(s.body) + copy.deepcopy(rest), make)
+                    new_if.body = self._returns_to(list(s.body) + clone(rest), make)
                     new_if.orelse = self._returns_to(list(s.orelse) + rest, make)
                 if not new_if.body:
                     new_if.body = [ast.copy_location(ast.Pass(), s)]
@@ -348,7 +348,7 @@ class Inliner:
             return None
         self.counter += 1
         tag = "__i%d" % self.counter
-        body = copy.deepcopy(_docstring_stripped(g.node.body))
+        body = clone(_docstring_stripped(g.node.body))
         params = set(bound)
         assigned = set()
         for n in body:
@@ -368,7 +368,7 @@ class Inliner:
             if p in assigned or not (_is_simple(a) or uses <= 1 and position == "expr"):
                 # evaluate once into a fresh local
                 nm = p + tag
-                st = ast.Assign(targets=[ast.Name(id=nm, ctx=ast.Store())], value=copy.deepcopy(a))
+                st = ast.Assign(targets=[ast.Name(id=nm, ctx=ast.Store())], value=clone(a))
                 ast.copy_location(st, call)
                 ast.fix_missing_locations(st)
                 pre.append(st)
@@ -386,7 +386,7 @@ class Inliner:
                         newkw = []
                         for k in c.keywords:
                             if k.arg is None and isinstance(k.value, ast.Name) and k.value.id in (kwname, rename.get(kwname, kwname)):
-                                newkw.extend(copy.deepcopy(extra))
+                                newkw.extend(clone(extra))
                             else:
                                 newkw.append(k)
                         c.keywords = newkw
@@ -401,7 +401,7 @@ class Inliner:
                     return []
                 st = ast.Expr(value=value)
             elif position == "assign":
-                st = ast.Assign(targets=[copy.deepcopy(target)], value=value if value is not None else ast.Constant(value=None))
+                st = ast.Assign(targets=[clone(target)], value=value if value is not None else ast.Constant(value=None))
             else:  # return
                 st = ast.Return(value=value)
             ast.copy_location(st, at if at is not None else call)
@@ -483,7 +483,7 @@ class Inliner:
                 continue
             self.counter += 1
             tag = "__i%d" % self.counter
-            new = _Subst(dict(bound), {x: x + tag for x in inner}).visit(copy.deepcopy(e))
+            new = _Subst(dict(bound), {x: x + tag for x in inner}).visit(clone(e))
             for x in ast.walk(new):
                 x._inl_file = g.module.relpath  # type: ignore[attr-defined]
                 x._inl_func = g.qualname  # type: ignore[attr-defined]
@@ -623,7 +623,7 @@ class Inliner:
                         ok = False
                 if ok:
                     for old, new in repl:
-                        self._replace_child(f.node, old, copy.deepcopy(new))
+                        self._replace_child(f.node, old, clone(new))
                     self._remove_stmt(f.node, defs[0])
                     changed = True
                     set_parents(f.node)
